@@ -10,6 +10,10 @@ from .engine import Engine, PathAbort, ReplayMismatch, Infeasible, model_to_json
 from . import ob as O
 
 
+class HarnessBug(BaseException):
+    """an exception raised by harness / oracle code (not by the unit under analysis)"""
+
+
 class Out:
     """What a harness case returns for one path."""
 
@@ -35,6 +39,10 @@ def _run_case(case, eng):
     except (PathAbort, ReplayMismatch, Infeasible):
         raise
     except Exception as e:  # undeclared exception escaping the unit
+        tb = traceback.extract_tb(e.__traceback__)
+        if not any("/repo/" in f.filename or f.filename.startswith("<") for f in tb):
+            # raised by harness/oracle code, not by the unit under analysis: a harness bug, never a finding
+            raise HarnessBug(f"{type(e).__name__}: {e} @ " + " <- ".join(f"{f.filename.rsplit('/', 1)[-1]}:{f.lineno}" for f in tb[-3:])) from e
         return None, e
     finally:
         Engine.cur = prev
